@@ -11,6 +11,9 @@ import numpy as np
 from hypothesis import strategies as st
 
 from tracklib.core import ENUCoords, Bbox
+from tracklib.core.obs_coords import GeoCoords, ECEFCoords
+
+COORD_CLASSES = ["ENU", "ENU", "ENU", "GEO", "ECEF"]
 from tracklib.core.raster import Raster, NO_DATA_VALUE
 from tracklib.core.track_collection import TrackCollection
 from tracklib.core.utils import co_count, co_sum, co_min, co_max, co_avg, co_median
@@ -273,6 +276,7 @@ def _decode_collection(t):
     case["req"] = _perm(req, perm)
     case["recompute"] = recompute
     case["layouts"] = layouts
+    case["coord"] = COORD_CLASSES[perm % len(COORD_CLASSES)]    # class of the positions; the numbers are the same
     return case
 
 
@@ -353,6 +357,10 @@ def body_summarize(case):
     fixes = []                                                   # scatter order: track by track, fix by fix
     for k, pts in enumerate(case["tracks"]):
         t = gen.make_track([(p[0], p[1]) for p in pts])
+        if case.get("coord", "ENU") != "ENU":                    # summarize() reads positions through getX()/getY() only
+            kls = {"GEO": GeoCoords, "ECEF": ECEFCoords}[case["coord"]]
+            for j, p in enumerate(pts):
+                t.getObs(j).position = kls(p[0], p[1], 0.0)
         vals = _feature_values(pts, len(fixes))
         typ = {"f": layouts[k].get("ftype", "float"), "g": layouts[k].get("gtype", "float"), "h": "float"}
         if typ["f"] not in TYPES or typ["g"] not in TYPES:
@@ -436,6 +444,7 @@ def body_summarize(case):
         cls.append("two-features-requested")
     if recompute:
         cls.append("aggregates-recomputed-%d" % recompute)
+    cls.append("coord-" + case.get("coord", "ENU"))
     orders = set(tuple(_final_order(l)) for l in layouts)
     if len(orders) > 1:
         cls.append("tracks-with-different-feature-layouts")
